@@ -471,7 +471,7 @@ def gen_scenarios(run, thorough):
             cfg["log"] = 1
         fin = rng.random() < 0.7
         body = gen_stream_script(rng, ln, finish=fin)
-        if rng.random() < 0.05 and body:
+        if rng.random() < 0.05 and body and not cfg.get("log"):
             body.insert(rng.randrange(len(body)), "D:50")
             if not extra:
                 extra = " dict=text:50:7"
